@@ -67,6 +67,7 @@ bool exec_gen(ExecCtx &c) {
         if (route == 0) tmp.emplace(knots);
         else tmp.emplace(knots, *supplied);
       });
+      if (op.kind == OP_N_NEW && route != 0) c08_note(E_GENERATOR, *g, *supplied);
       if (op.kind == OP_N_NEW && route != 0)
         c08_check(c, differ, true, !differ && supplied->getData() != g->getData(),
                   "BSplineGenerator(knots, grid)", true);
@@ -314,6 +315,7 @@ bool exec_numint(ExecCtx &c) {
           uint64_t bits;
           memcpy(&bits, &got, 8);
           out.obs = hmix(out.obs, bits);
+          c08_note(E_NUMINT, x.getSupport().getGrid(), y.getSupport().getGrid());
           c08_check(c, !same, true, distinct, "integration::integrate");
           sim::Exempt e;
           tx.reset();
